@@ -732,6 +732,159 @@ def opValidate : Op K := fun n _ =>
     else Validate.sections (n.getD 1 0) (flag n 2) (n.getD 3 0) (n.getD 4 0) (n.getD 5 0) (n.getD 6 0) (n.getD 7 0) (n.getD 8 0)
   #[((o.code : Nat) : K)]
 
+/-! ### wingbox section, wingbox geometry, radii, glue components -/
+
+def airfoilView (a : Array K) (off npt : Nat) : Wingbox.Airfoil K :=
+  ⟨vec a off, vec a (off + npt), vec a (off + 2 * npt), vec a (off + 3 * npt)⟩
+
+/-- ints: ny npt ; floats: tc0 xu[npt] yu[npt] xl[npt] yl[npt] | streamwise_chords fem_chords fem_twists spar skin t_over_c (each [ny-1])
+    → A A_enc A_int Iy Qz Iz J htop hbottom hfront hrear (each [ny-1]) -/
+def opSectionPropertiesWingbox : Op K := fun n a =>
+  let ny := n[0]!; let npt := n[1]!; let ne := ny - 1
+  let af := airfoilView a 1 npt
+  let o := 1 + 4 * npt
+  let secs : Array (Wingbox.Section K) := (Array.range ne).map fun e =>
+    Wingbox.sectionProperties (npt - 1) af (at_ a 0) (at_ a (o + e)) (at_ a (o + ne + e)) (at_ a (o + 2*ne + e))
+      (at_ a (o + 3*ne + e)) (at_ a (o + 4*ne + e)) (at_ a (o + 5*ne + e))
+  let col (f : Wingbox.Section K → K) (out : Array K) : Array K := secs.foldl (fun acc s => acc.push (f s)) out
+  col (·.hrear) <| col (·.hfront) <| col (·.hbottom) <| col (·.htop) <| col (·.J) <| col (·.Iz) <| col (·.Qz) <| col (·.Iy) <|
+    col (·.Aint) <| col (·.Aenc) <| col (·.A) #[]
+
+/-- ints: nx ny npt ; floats: xu yu xl yl (each [npt]) | mesh → streamwise_chords fem_chords fem_twists (each [ny-1]) -/
+def opWingboxGeometry : Op K := fun n a =>
+  let nx := n[0]!; let ny := n[1]!; let npt := n[2]!; let ne := ny - 1
+  let af := airfoilView a 0 npt
+  let m := mesh a (4 * npt) ny
+  let o := outVec #[] ne (Wingbox.streamwiseChord nx m)
+  let o := outVec o ne (Wingbox.femChord nx (npt - 1) af m)
+  outVec o ne (Wingbox.femTwist nx (npt - 1) af m)
+
+/-- ints: nx ny ; floats: mesh t_over_c[ny-1] → radius[ny-1] -/
+def opRadiusComp : Op K := fun n a =>
+  let nx := n[0]!; let ny := n[1]!
+  outVec #[] (ny - 1) (Wingbox.radii nx (mesh a 0 ny) (vec a (3 * nx * ny)))
+
+/-- ints: nx ny ; floats: mesh radius[ny-1] t_over_c[ny-1] → spar_within_wing[ny-1] -/
+def opSparWithinWing : Op K := fun n a =>
+  let nx := n[0]!; let ny := n[1]!; let o := 3 * nx * ny
+  outVec #[] (ny - 1) (Wingbox.sparWithinWing nx (mesh a 0 ny) (vec a o) (vec a (o + ny - 1)))
+
+/-- ints: ny ; floats: nodes[ny,3] A_int[ny-1] → fuel_vols[ny-1] -/
+def opWingboxFuelVol : Op K := fun n a =>
+  let ny := n[0]!
+  outVec #[] (ny - 1) (Wingbox.fuelVol (pts a 0) (vec a (3 * ny)))
+
+/-- ints: ny ; floats: disp_aug[6(ny+1)] → disp[ny,6] -/
+def opDisp : Op K := fun n a =>
+  let ny := n[0]!
+  Id.run do
+    let mut o : Array K := #[]
+    for j in [0:ny] do
+      for k in [0:6] do o := o.push (Glue.disp (vec a 0) j k)
+    return o
+
+/-- ints: ny sym ; floats: v[ny] → monotonic[ny-1] -/
+def opMonotonic : Op K := fun n a =>
+  let ny := n[0]!
+  outVec #[] (ny - 1) (Glue.monotonic ny (flag n 1) (vec a 0))
+
+/-- ints: npoints ; floats: cd[npoints] → CD -/
+def opMultiCD : Op K := fun n a => #[Glue.multiCD n[0]! (vec a 0)]
+
+/-- ints: N ; floats: mtx[N,N] rhs[N] circulations[N] → residual[N] -/
+def opSolveResidual : Op K := fun n a =>
+  let N := n[0]!
+  outVec #[] N (Glue.solveResidual N (fun i j => at_ a (i * N + j)) (vec a (N * N)) (vec a (N * N + N)))
+
+/-- panel counts from ints `ns (nx ny)*` starting at position `p` -/
+def sizesOf (n : Array Nat) (p : Nat) : List Nat :=
+  (List.range (n.getD p 0)).map fun s => (n.getD (p + 1 + 2*s) 0 - 1) * (n.getD (p + 2 + 2*s) 0 - 1)
+
+/-- ints: ns (nx ny)* ; floats: panel_forces[N,3] → per surface sec_forces -/
+def opPanelForcesSurf : Op K := fun n a =>
+  let sizes := sizesOf n 0
+  Id.run do
+    let mut o : Array K := #[]
+    for s in [0:sizes.length] do
+      o := outPts o (sizes.getD s 0) (Glue.panelForcesSurf sizes (pts a 0) s)
+    return o
+
+/-- ints: npts ns (nx ny)* ; floats: freestream[npts,3] circulations[N] then per surface vel_mtx[npts, num_s, 3] → velocities[npts,3] -/
+def opEvalVelocities : Op K := fun n a =>
+  let npts := n[0]!
+  let sizes := sizesOf n 1
+  let N := Glue.total sizes
+  let o0 := 3 * npts + N
+  let velMtx : Nat → Nat → Nat → V3 K := fun s p l =>
+    pts a (o0 + 3 * npts * Glue.offset sizes s) (p * sizes.getD s 0 + l)
+  outPts #[] npts (Glue.evalVelocity sizes velMtx (pts a 0) (vec a (3 * npts)))
+
+/-- ints: ns (nx ny)* ; floats: freestream[N,3] then per surface vel_mtx[N, num_s, 3], normals[num_s, 3] → mtx[N,N] rhs[N] -/
+def opMtxRhs : Op K := fun n a =>
+  let sizes := sizesOf n 0
+  let N := Glue.total sizes
+  -- start of surface s's block: 3N + Σ_{t<s} (3 N num_t + 3 num_t)
+  let blk : Nat → Nat := fun s => 3 * N + (3 * N + 3) * Glue.offset sizes s
+  let velMtx : Nat → Nat → Nat → V3 K := fun s p l => pts a (blk s) (p * sizes.getD s 0 + l)
+  let normals : Nat → Nat → V3 K := fun s l => pts a (blk s + 3 * N * sizes.getD s 0) l
+  Id.run do
+    let mut o : Array K := #[]
+    for i in [0:N] do
+      for j in [0:N] do o := o.push (Glue.mtxEntry sizes velMtx normals i j)
+    for i in [0:N] do o := o.push (Glue.rhsEntry sizes (pts a 0) normals i)
+    return o
+
+/-- ints: npts nxv nyv ; floats: eval_pts[npts,3] vortex_mesh[nxv,nyv,3] → vectors[npts,nxv,nyv,3] -/
+def opGetVectors : Op K := fun n a =>
+  let npts := n[0]!; let nxv := n[1]!; let nyv := n[2]!
+  let vm := mesh a (3 * npts) nyv
+  Id.run do
+    let mut o : Array K := #[]
+    for p in [0:npts] do
+      o := outMesh o nxv nyv (Glue.getVector (pts a 0) vm p)
+    return o
+
+
+
+def secsOf (n : Array Nat) (a : Array K) (p nx ns : Nat) : List (Unify.Sec K) := Id.run do
+  let mut off := 0
+  let mut l : List (Unify.Sec K) := []
+  for k in [0:ns] do
+    let ny := n.getD (p + k) 0
+    l := l ++ [{ ny := ny, mesh := mesh a off ny }]
+    off := off + 3 * nx * ny
+  return l
+
+/-- ints: nx shift nsec ny_0 … ; floats: section meshes → unified mesh (the component, not the function) -/
+def opUnifyComp : Op K := fun n a =>
+  let nx := n[0]!; let shift := flag n 1; let ns := n[2]!
+  let (u, tot) := Unify.unifyComp shift (secsOf n a 3 nx ns)
+  outMesh #[] nx tot u
+
+/-- ints: nx nsec ny_0 … then 3 mask flags per edge ; floats: section meshes → section_separation -/
+def opMultiJoin : Op K := fun n a =>
+  let nx := n[0]!; let ns := n[1]!
+  let secs := secsOf n a 2 nx ns
+  Id.run do
+    let mut o : Array K := #[]
+    for k in [0:ns - 1] do
+      for te in [false, true] do
+        let v := Unify.joinSeparation nx secs k te
+        for d in [0:3] do
+          if flag n (2 + ns + 3 * k + d) then o := o.push (v.get d)
+    return o
+
+/-- ints: ny sym ; floats: local_stiff_transformed[ne,12,12] forces[6ny+6] disp_aug[6ny+6] → residual[6ny+6] -/
+def opFEMResidual : Op K := fun n a =>
+  let ny := n[0]!; let sym := flag n 1
+  let ne := ny - 1
+  let size := 6 * ny + 6
+  let kloc := fun e r c => at_ a (144*e + 12*r + c)
+  let Kf := FEM.assembleK ny (FEM.clampIndex ny sym) kloc
+  outVec #[] size (FEM.residual size Kf (vec a (144*ne + size)) (vec a (144*ne)))
+
+
+
 def ops : List (String × Op K) := [
   ("ComputeNodes", opComputeNodes),
   ("LoadTransfer", opLoadTransfer),
@@ -802,7 +955,23 @@ def ops : List (String × Op K) := [
   ("GetFullMesh", opGetFullMesh),
   ("UnifyMesh", opUnifyMesh),
   ("AddChordwisePanels", opAddChordwisePanels),
-  ("Validate", opValidate)
+  ("Validate", opValidate),
+  ("SectionPropertiesWingbox", opSectionPropertiesWingbox),
+  ("WingboxGeometry", opWingboxGeometry),
+  ("RadiusComp", opRadiusComp),
+  ("SparWithinWing", opSparWithinWing),
+  ("WingboxFuelVol", opWingboxFuelVol),
+  ("Disp", opDisp),
+  ("Monotonic", opMonotonic),
+  ("MultiCD", opMultiCD),
+  ("SolveResidual", opSolveResidual),
+  ("PanelForcesSurf", opPanelForcesSurf),
+  ("EvalVelocities", opEvalVelocities),
+  ("MtxRhs", opMtxRhs),
+  ("GetVectors", opGetVectors),
+  ("UnifyComp", opUnifyComp),
+  ("MultiJoin", opMultiJoin),
+  ("FEMResidual", opFEMResidual)
 ]
 
 end OAS.Driver
